@@ -363,12 +363,12 @@ Proof.
 Qed.
 
 (** C01 over the translated general path ([cut_str] of src/cut_str.rs, every stage of it): for every
-    non-empty literal delimiter and every combination of -t, -p, -s, -j, -r, format text and fallbacks
-    (no -g here, no -m: the bridge does not cover it yet), the record comes out as the function of its
-    fields that the statement describes, whatever the scratch buffers held *)
+    non-empty literal delimiter and every combination of -t, -p, -s, -m, -j, -r, format text and fallbacks
+    (-g has its own theorem in the model), the record comes out as the function of its fields that the
+    statement describes, whatever the scratch buffers held *)
 Theorem tie_C01_record_as_a_function_of_its_fields :
   forall (o : opt) (line0 : bytes) (fields0 : list (Z * Z)) (buf0 : list byte),
-    value_opts o -> o_complement o = false -> Forall item_nz (items (o_bounds o)) ->
+    value_opts o -> Forall item_nz (items (o_bounds o)) ->
     Z.of_nat (length line0) + Z.of_nat (length (o_delim o)) <= usize_max ->
     Z.of_nat (length (line2 o (line1 o line0))) + Z.of_nat (length (o_delim o)) <= usize_max ->
     Z.of_nat (length (line2 o (line1 o line0))) + 2 <= i32_max ->
@@ -390,7 +390,7 @@ Theorem tie_C01_record_as_a_function_of_its_fields :
              end))
       (gen_cut_str line0 o fields0 buf0 [o_eol o]).
 Proof.
-  intros o line0 fields0 buf0 Hv Hc Hnz H0 H2 Hf.
+  intros o line0 fields0 buf0 Hv Hnz H0 H2 Hf.
   rewrite <- (general_record_value o line0 Hv Hnz).
   destruct Hv as (Hd & Hre & Hj & Hb & Hg).
   apply tie_cut_str_literal; try assumption. rewrite Hb. discriminate.
@@ -399,7 +399,7 @@ Qed.
 (** C10 over the same: the result does not depend on what the two scratch buffers held *)
 Theorem tie_C10_cut_str_ignores_its_buffers :
   forall (o : opt) (line0 : bytes) (f1 f2 : list (Z * Z)) (b1 b2 : list byte) (out : bytes),
-    o_regex o = None -> o_complement o = false -> o_json o = false -> o_btype o <> BChars ->
+    o_regex o = None -> o_btype o <> BChars ->
     Forall item_nz (items (o_bounds o)) ->
     Z.of_nat (length line0) + Z.of_nat (length (o_delim o)) <= usize_max ->
     Z.of_nat (length (line2 o (line1 o line0))) + Z.of_nat (length (o_delim o)) <= usize_max ->
@@ -407,9 +407,9 @@ Theorem tie_C10_cut_str_ignores_its_buffers :
     cut_str o line0 = Some (ROk out) ->
     gen_cut_str line0 o f1 b1 [o_eol o] = gen_cut_str line0 o f2 b2 [o_eol o].
 Proof.
-  intros o line0 f1 f2 b1 b2 out Hre Hc Hj Hb Hnz H0 H2 Hf E.
-  pose proof (tie_cut_str_literal o line0 f1 b1 Hre Hc Hj Hb Hnz H0 H2 Hf) as A.
-  pose proof (tie_cut_str_literal o line0 f2 b2 Hre Hc Hj Hb Hnz H0 H2 Hf) as B.
+  intros o line0 f1 f2 b1 b2 out Hre Hb Hnz H0 H2 Hf E.
+  pose proof (tie_cut_str_literal o line0 f1 b1 Hre Hb Hnz H0 H2 Hf) as A.
+  pose proof (tie_cut_str_literal o line0 f2 b2 Hre Hb Hnz H0 H2 Hf) as B.
   rewrite E in A, B. cbn [of_rres_cut] in A, B. rewrite A, B. reflexivity.
 Qed.
 
